@@ -131,6 +131,11 @@ Theorem C11_never_more_farms_than_the_limit_in_any_reachable_world : forall g w 
     <= fm_max_farms (fm_cfg (w_fm (run w ops))).
 Proof. exact reachable_farm_limit. Qed.
 
+(* the configured limit itself never goes down, through any history (UpdateConfig refuses a decrease) *)
+Theorem C11_configured_limit_never_decreases : forall ops w,
+  fm_max_farms (fm_cfg (w_fm w)) <= fm_max_farms (fm_cfg (w_fm (run w ops))).
+Proof. exact limit_never_decreases. Qed.
+
 (* one farm-manager message at a time: the invariant FL (count <= limit for every LP denom, when the limit is <= 100) is
    preserved by EVERY message from EVERY sender *)
 Theorem C11_every_message_preserves_the_limit : forall w sender funds m s' msgs,
@@ -152,3 +157,4 @@ Print Assumptions C11_closing_transaction_refunds_exactly_the_remainder_to_the_o
 Print Assumptions C11_never_more_farms_than_the_limit_in_any_reachable_world.
 Print Assumptions C11_every_message_preserves_the_limit.
 Print Assumptions C11_limit_example.
+Print Assumptions C11_configured_limit_never_decreases.
